@@ -245,4 +245,21 @@ theorem loopRun_inv (P : List RtVal → Prop) (body : Body)
         rw [← h.1]
         exact loopRun_inv P body hstep M (i + 1) c vs' fin' scs' (hstep i vs c vs' sc hp hb) hrec
 
+theorem conformsAll_get : ∀ (row : List RtVal) (s : List Ty) (j : Nat) (t : Ty),
+    conformsAll row (s.map some) = true → s[j]? = some t →
+    ∃ v, row[j]? = some v ∧ conforms v (some t) = true
+  | [], [], _, _, _, h => by simp at h
+  | [], _ :: _, _, _, h, _ => by simp [conformsAll] at h
+  | _ :: _, [], _, _, h, _ => by simp [conformsAll] at h
+  | v :: vs, t' :: ts, 0, t, h, hj => by
+    simp only [List.map_cons, conformsAll, Bool.and_eq_true] at h
+    simp only [List.getElem?_cons_zero, Option.some.injEq] at hj
+    subst hj
+    exact ⟨v, rfl, h.1⟩
+  | v :: vs, t' :: ts, j + 1, t, h, hj => by
+    simp only [List.map_cons, conformsAll, Bool.and_eq_true] at h
+    simp only [List.getElem?_cons_succ] at hj
+    obtain ⟨w, hw, hc⟩ := conformsAll_get vs ts j t h.2 hj
+    exact ⟨w, by simpa using hw, hc⟩
+
 end C06M
